@@ -4,6 +4,7 @@ import json, subprocess
 
 ALL = ['C%02d' % i for i in range(1, 21)]
 TRACE = 'TLA+ level-A spec (Resonate.tla/Props.tla) checked exhaustively by TLC + TLC trace validation (ResonateTrace.tla) of executions recorded from the real kernel/coroutines/sqlite store driven by the ksim harness (controlled AIO: commit order, batching, ticks, faults, crashes)'
+TRACEB = TRACE + '; level-B spec of the coroutines (Kernel.tla: one yield at a time, B refines A checked exhaustively by TLC) whose preemption-bounded behaviours are enumerated by TLC and replayed as schedules step by step against the real kernel (ksim -script), the record judged by the same trace specification'
 SIDE = 'TLA+ side specification checked/enumerated by TLC + conformance of the real code: TLC-generated workloads replayed on the real implementation and the recorded observations judged by TLC against the specification'
 CLAIMED = {
  'C20': dict(cat='exploration', ref='6/C20', text='Fidelity.tla lists classes of client data (ids with slashes, spaces, case, non-ASCII, markup, separators, percent signs, template syntax, non-canonical path encodings; binary and large payloads; header/tag maps with empty and non-ASCII keys; idempotency keys; timeouts over the 64-bit range) and the scenarios: write through one protocol, read back through both, kill -9, restart, read again, complete, read again; ids differing only in case or surrounding space; ids derived by the server (scheduled promise ids, task ids and links in dispatched messages). TLC enumerates the scenarios, procx plays them on the real binary, TLC compares what came back (hex of the bytes) with what was supplied.', tech='TLA+ scenario table (Fidelity.tla) enumerated by TLC, played on the real server binary over HTTP and gRPC (procx), read-back values judged by TLC (FidelityTrace.tla)', engine='tlc+procx'),
@@ -15,39 +16,39 @@ CLAIMED = {
  'C19': dict(cat='model_checking', ref='6/C19', text='Route.tla: routing-tag classes x target tables x stored receivers x task kinds (149 vectors) enumerated by TLC and played on the real router worker and the real sender worker with recording plugins; matched/receiver, plugin, data, message type, body and links judged by TLC.', tech=SIDE, engine='tlc+routex'),
  'C13': dict(cat='fault_enumeration', ref='6/C13', text='Front.tla structures the input space as endpoint x field x class of hostile value followed by the lifecycle an accepted entity goes through (time-out, routing, dispatch, firing, conversion), a kill -9, a restart and more background cycles; TLC enumerates the ~600 scenarios; each is played against its own real `resonate serve` process over real HTTP/gRPC by procx; TLC judges survival, liveness probes, reply classes and that refused requests leave no trace in the database file.', tech='TLA+ scenario table (Front.tla) enumerated by TLC, played on the real server binary (procx), observations judged by TLC (FrontTrace.tla)', engine='tlc+procx'),
  'C14': dict(cat='model_checking', ref='6/C14', text='Search definitions (pattern, state mask, tags, newest first, page size, cursor iff full) checked exhaustively by TLC: following cursors returns exactly the matching set once each; real searches go through the real API helper and real JWT cursors, each page must be the level-A result on a commit-point state, traversals are checked for duplicates/completeness under concurrent mutations, forged cursors must be rejected.', tech=TRACE),
- 'C01': dict(cat='model_checking', ref='6/C01', text='Write-once/immutability as TLA+ action properties: exhaustive on the bounded level-A model; every recorded commit (incl. each transaction inside a batch), reply and notification of seeded racing workloads with faults and crashes is checked by TLC against them.', tech=TRACE),
- 'C02': dict(cat='model_checking', ref='6/C02', text='Linearizability by observed commit points: every state change of the real store must be the level-A effect of the owning request at its decision tick (or a no-op), every reply must be the level-A result at one of the request\'s commit points; whole bodies compared, TLC is the oracle.', tech=TRACE),
- 'C03': dict(cat='model_checking', ref='6/C03', text='Declarative status tables of the statement checked by TLC against the operational spec for every reachable state and argument combination; the real create/complete coroutines are then validated against the spec on recorded traces incl. lost replies and racing retries.', tech=TRACE),
- 'C04': dict(cat='model_checking', ref='6/C04', text='Deadline semantics (before / exactly at / after) exhaustive in the model; real executions with boundary-biased ticks and decision tick decoupled from commit tick validated by TLC.', tech=TRACE),
- 'C05': dict(cat='model_checking', ref='6/C05', text='Conversion atomicity and acknowledgement semantics as TLA+ invariants/action properties, exhaustive for 2 promises x registrations x completion paths; real racing registration/completion workloads (both orders inside one batch, faults, crashes) validated by TLC.', tech=TRACE),
- 'C06': dict(cat='model_checking', ref='6/C06', text='Crash = drop the real System and reopen the database file with a fresh one at seeded points; TLC checks that the state found after restart is exactly the last committed one, that every acknowledgement corresponds to a committed effect, and the atomicity invariants on every observed state.', tech=TRACE),
- 'C07': dict(cat='model_checking', ref='6/C07', text='Claim guard, one claim per counter, lease honoured, fencing: exhaustive in the level-A task model (2 workers, stale/future counters, ttl 0); real claim/complete/heartbeat/sweep/dispatch interleavings validated by TLC with the lease bookkeeping of the spec.', tech=TRACE),
- 'C08': dict(cat='model_checking', ref='6/C08', text='Birth/finish of tasks with their promise and the dispatch discipline (selection, one per root per cycle, enqueued only after success, message names task+counter) checked by TLC on the model and on recorded executions with the real router and the real sender worker (recording plugin).', tech=TRACE),
+ 'C01': dict(cat='model_checking', ref='6/C01', text='Write-once/immutability as TLA+ action properties: exhaustive on the bounded level-A model; every recorded commit (incl. each transaction inside a batch), reply and notification of seeded racing workloads with faults and crashes is checked by TLC against them.', tech=TRACEB),
+ 'C02': dict(cat='model_checking', ref='6/C02', text='Linearizability by observed commit points: every state change of the real store must be the level-A effect of the owning request at its decision tick (or a no-op), every reply must be the level-A result at one of the request\'s commit points; whole bodies compared, TLC is the oracle.', tech=TRACEB),
+ 'C03': dict(cat='model_checking', ref='6/C03', text='Declarative status tables of the statement checked by TLC against the operational spec for every reachable state and argument combination; the real create/complete coroutines are then validated against the spec on recorded traces incl. lost replies and racing retries.', tech=TRACEB),
+ 'C04': dict(cat='model_checking', ref='6/C04', text='Deadline semantics (before / exactly at / after) exhaustive in the model; real executions with boundary-biased ticks and decision tick decoupled from commit tick validated by TLC.', tech=TRACEB),
+ 'C05': dict(cat='model_checking', ref='6/C05', text='Conversion atomicity and acknowledgement semantics as TLA+ invariants/action properties, exhaustive for 2 promises x registrations x completion paths; real racing registration/completion workloads (both orders inside one batch, faults, crashes) validated by TLC.', tech=TRACEB),
+ 'C06': dict(cat='model_checking', ref='6/C06', text='Kernel level: crash = drop the real System and reopen the database file with a fresh one at seeded points; TLC checks that the state found after restart is exactly the last committed one, that every acknowledgement corresponds to a committed effect, and the atomicity invariants on every observed state. Process level: Durable.tla says what kill -9, SIGTERM with the default configuration, restarts, crashes during recovery and requests in flight at the kill may do to the durable state (nothing / all or nothing; background processing resumes); TLC generates behaviours, procx plays them on real `resonate serve` processes (real signals, bursts of small and of 100 kB requests killed after milliseconds or when the file has grown), TLC re-runs the machine along the observations and judges every look at the database file and every API read (DurableTrace.tla).', tech=TRACE + '; process level: TLA+ state machine Durable.tla, behaviours generated by TLC, played on the real binary by procx, observations validated by TLC (DurableTrace.tla)', engine='tlc+ksim'),
+ 'C07': dict(cat='model_checking', ref='6/C07', text='Claim guard, one claim per counter, lease honoured, fencing: exhaustive in the level-A task model (2 workers, stale/future counters, ttl 0); real claim/complete/heartbeat/sweep/dispatch interleavings validated by TLC with the lease bookkeeping of the spec.', tech=TRACEB),
+ 'C08': dict(cat='model_checking', ref='6/C08', text='Birth/finish of tasks with their promise and the dispatch discipline (selection, one per root per cycle, enqueued only after success, message names task+counter) checked by TLC on the model and on recorded executions with the real router and the real sender worker (recording plugin).', tech=TRACEB),
  'C09': dict(cat='model_checking', ref='6/C09', text='Lock exclusivity and lease arithmetic: exhaustive for 2 executions x 2 processes x ttl {0,1,2} x every clock position; real acquire/release/heartbeat/sweep interleavings validated by TLC.', tech=TRACE),
  'C10': dict(cat='model_checking', ref='6/C10', text='Schedule firing (advance by exactly one occurrence, never early, atomic with the promise, idempotent create) exhaustive in the model; real cron strings, clock jumps, delete/re-create races, faults and crashes validated by TLC.', tech=TRACE),
- 'C11': dict(cat='model_checking', ref='6/C11', text='Liveness <>[]Converged under weak fairness of the background effects checked by TLC on level A; on the real kernel: after clients stop, configurations drawn down to 1, the bounded number of cycles is run and TLC evaluates Converged on the logged database.', tech=TRACE),
+ 'C11': dict(cat='model_checking', ref='6/C11', text='Liveness <>[]Converged under weak fairness of the background effects checked by TLC on level A; on the real kernel: after clients stop, configurations drawn down to 1, the bounded number of cycles is run and TLC evaluates Converged on the logged database.', tech=TRACEB),
 }
 NOTE = {
  'C01': 'bounded models; promise values from small pools (byte fidelity is C20); SQLite atomic commit, TLC, the projection function are trusted',
  'C02': 'the sequential spec of ClaimTask has two instants (claim, then promise read), as the API does; search is checked by C14',
  'C03': 'routing tags restricted to plain strings at this level (JSON receivers: C19)',
  'C04': 'the clock reading that counts for a reply is the one of its linearization point; known finding F3 is reported, not suppressed for other cases',
- 'C05': 'ids with ":" (non-injective derived ids) are exercised in the thorough tier only',
- 'C06': 'process death is simulated by dropping the System and the connection (ksim); fsync/power-loss is out of scope; the real binary under kill -9 is part of procx when built',
+ 'C05': 'ids with ":" (non-injective derived ids) are exercised by the colliding-ids workload and the collide scenario; the wedge they cause is known finding F2 (C11)',
+ 'C06': 'fsync / power loss is out of scope (a process kill keeps the OS page cache); at kernel level process death is simulated by dropping the System and the connection',
  'C07': 'the attempt counter is advisory and compared loosely after claims',
  'C08': 'hand-off outcomes are scripted by the harness (ok/refused/transport error); router errors injected',
  'C09': 'single store connection',
  'C10': 'cron expressions of the */k-seconds family; robfig/cron is the trusted definition of an occurrence',
- 'C12': 'one subsystem (echo) and one worker; wall-clock settle times in directed mode (margins >= 20x the signal timeout)',
+ 'C12': 'one subsystem (echo) and one worker; wall-clock settle times in directed mode steer the schedule only (the verdict is on what clients observed; a request is reported missing after 5 s)',
  'C15': 'the stub kernel may return combinations the real kernel never produces (the statement quantifies over every status for every endpoint)',
  'C16': 'isolation (visibility only at commit) is exercised through the second connection after every Execute, not at intermediate points',
  'C17': 'NO Postgres server: the SQL runs on SQLite through pgemu; Postgres-only semantics (32-bit INTEGER columns, jsonb key order, locking across several workers) are out of reach',
  'C18': 'the HTTP/SSE handler goroutines and the shutdown path are outside the replay',
  'C19': 'representative values per class, all classes enumerated',
- 'C13': 'classes of values with representatives (not every byte string); quick tier plays a third of the table selected by VERIF_SEED, thorough all of it; expectations "must be refused" only where the statement is unambiguous (absent/empty required field, wrong JSON type, out-of-range number), otherwise only survival and no 5xx',
+ 'C13': 'classes of values with representatives (not every byte string); both tiers play the whole table; background work after the hostile input is awaited with bounded wait-until looks (12 s), never a fixed sleep; expectations "must be refused" only where the statement is unambiguous (absent/empty required field, wrong JSON type, out-of-range number), otherwise only survival and no 5xx',
  'C20': 'classes with representatives, not every byte string; HTTP header values cannot carry non-ASCII text or surrounding white space (those idempotency keys travel over gRPC only); values are re-encoded to hex by the harness before TLC compares them',
  'C14': 'ids and patterns from an alphabet without SQL LIKE metacharacters and of uniform case (SQLite LIKE is case-insensitive; the statement only defines *); completeness is checked for promise traversals',
- 'C11': 'the cycle bound is generous (40 + 12 x rows); hand-offs succeed and no faults after clients stop',
+ 'C11': 'the cycle bound is generous (40 + 12 x rows); hand-offs succeed and no faults after clients stop; known finding F2 (colliding derived ids) is reported, other stuck promises are violations',
 }
 REASONS = {p: 'check not built yet (work in progress; see DESIGN.md section 10 for the build order)' for p in ALL}
 
